@@ -48,6 +48,8 @@ struct Watcher {
     fd: i32,
     wds: HashMap<i32, PathBuf>,
     pub events: Vec<(PathBuf, String, u32)>,
+    /// rename cookie of each event (parallel to `events`)
+    pub cookies: Vec<u32>,
 }
 
 const IN_MODIFY: u32 = 0x2;
@@ -65,7 +67,7 @@ impl Watcher {
         if fd < 0 {
             return None;
         }
-        Some(Watcher { fd, wds: HashMap::new(), events: Vec::new() })
+        Some(Watcher { fd, wds: HashMap::new(), events: Vec::new(), cookies: Vec::new() })
     }
     fn watch(&mut self, dir: &Path) {
         if self.wds.values().any(|p| p == dir) {
@@ -98,6 +100,7 @@ impl Watcher {
             while off + 16 <= n as usize {
                 let wd = i32::from_ne_bytes(buf[off..off + 4].try_into().unwrap());
                 let mask = u32::from_ne_bytes(buf[off + 4..off + 8].try_into().unwrap());
+                let cookie = u32::from_ne_bytes(buf[off + 8..off + 12].try_into().unwrap());
                 let len = u32::from_ne_bytes(buf[off + 12..off + 16].try_into().unwrap()) as usize;
                 let name_bytes = &buf[off + 16..off + 16 + len];
                 let name = String::from_utf8_lossy(name_bytes.split(|b| *b == 0).next().unwrap_or(&[])).to_string();
@@ -107,6 +110,7 @@ impl Watcher {
                     self.watch_tree(&p);
                 }
                 self.events.push((dir, name, mask));
+                self.cookies.push(cookie);
                 off += 16 + len;
             }
         }
@@ -174,6 +178,8 @@ fn copy_tree(src: &Path, dst: &Path) {
 struct Snap {
     label: String,
     dir: PathBuf,
+    /// number of file-system events the watcher had seen when the copy was taken
+    ev_len: usize,
 }
 
 struct Snapper {
@@ -190,8 +196,10 @@ impl Snapper {
         if !self.armed.load(std::sync::atomic::Ordering::SeqCst) {
             return;
         }
+        let mut ev_len = 0;
         if let Some(w) = self.watcher.lock().unwrap().as_mut() {
             w.drain();
+            ev_len = w.events.len();
         }
         let mut s = self.snaps.lock().unwrap();
         let n = s.len();
@@ -202,7 +210,7 @@ impl Snapper {
         for (i, src) in self.src.iter().enumerate() {
             copy_tree(src, &d.join(format!("d{i}")));
         }
-        s.push(Snap { label: label.to_string(), dir: d });
+        s.push(Snap { label: label.to_string(), dir: d, ev_len });
     }
 }
 
@@ -234,8 +242,203 @@ impl utils::verif::Hooks for Snapper {
         if let (Some(w), Some(n)) = (w.as_mut(), keep) {
             w.drain();
             w.events.truncate(n);
+            w.cookies.truncate(n);
         }
     }
+}
+
+// ---- crash states derived from the kernel's effect log --------------------------------------------
+
+#[derive(Clone, PartialEq, Eq, PartialOrd, Ord)]
+enum VSrc {
+    /// content as found in hook snapshot number i
+    Snap(usize),
+    Empty,
+}
+
+fn walk_rel(base: &Path, rel: &Path, files: &mut Vec<PathBuf>, dirs: &mut Vec<PathBuf>) {
+    if let Ok(rd) = std::fs::read_dir(base.join(rel)) {
+        let mut es: Vec<_> = rd.flatten().collect();
+        es.sort_by_key(|e| e.file_name());
+        for e in es {
+            let r = rel.join(e.file_name());
+            if e.path().is_dir() {
+                dirs.push(r.clone());
+                walk_rel(base, &r, files, dirs);
+            } else {
+                files.push(r);
+            }
+        }
+    }
+}
+
+/// The named crash points sit where the shipped code has its file-system effects; a change that adds or reorders
+/// effects creates states between them. This derives one more crash state per namespace-changing event the kernel
+/// reported (create, delete, rename), independent of where the points sit: the directory as it was at "op:start" with
+/// the events up to that one applied. A file that arrived by rename takes its content from the first later snapshot
+/// that holds it (final names are never written in place — the protocol rule checks that separately); files outside
+/// the watched directories must not have changed during the operation, otherwise no state is derived.
+fn virtual_crash_states(rep: &mut RunReport, snapper: &Snapper, snaps: &[Snap], base: &Path) -> Vec<Snap> {
+    let mut out = Vec::new();
+    let (events, cookies, watched): (Vec<(PathBuf, String, u32)>, Vec<u32>, Vec<PathBuf>) = match snapper.watcher.lock().unwrap().as_ref() {
+        Some(w) => (w.events.clone(), w.cookies.clone(), w.wds.values().cloned().collect()),
+        None => return out,
+    };
+    if snaps.len() < 2 || events.iter().any(|e| e.2 & IN_Q_OVERFLOW != 0) {
+        return out;
+    }
+    let (first, last) = (&snaps[0], &snaps[snaps.len() - 1]);
+    // absolute directory -> path relative to a snapshot root ("d<i>/...")
+    let rel_of = |abs: &Path| -> Option<PathBuf> {
+        for (i, src) in snapper.src.iter().enumerate() {
+            if let Ok(r) = abs.strip_prefix(src) {
+                return Some(PathBuf::from(format!("d{i}")).join(r));
+            }
+        }
+        None
+    };
+    let watched_rel: Vec<PathBuf> = watched.iter().filter_map(|w| rel_of(w)).collect();
+    let in_watched = |rel: &Path| rel.parent().map(|p| watched_rel.iter().any(|w| w == p)).unwrap_or(false);
+    let (mut f0, mut d0, mut f1, mut d1) = (Vec::new(), Vec::new(), Vec::new(), Vec::new());
+    walk_rel(&first.dir, Path::new(""), &mut f0, &mut d0);
+    walk_rel(&last.dir, Path::new(""), &mut f1, &mut d1);
+    // nothing outside the watched directories may have changed (its timing relative to the events is unknown)
+    let unwatched = |v: &Vec<PathBuf>| -> Vec<PathBuf> { v.iter().filter(|r| !in_watched(r)).cloned().collect() };
+    if unwatched(&f0) != unwatched(&f1) || unwatched(&f0).iter().any(|r| std::fs::read(first.dir.join(r)).ok() != std::fs::read(last.dir.join(r)).ok()) {
+        rep.count("probe:effect_log_states_skipped_unwatched_change", 1);
+        return out;
+    }
+    let mut files: BTreeMap<PathBuf, VSrc> = f0.iter().map(|r| (r.clone(), VSrc::Snap(0))).collect();
+    let mut dirs: std::collections::BTreeSet<PathBuf> = d0.into_iter().collect();
+    let mut seen: std::collections::BTreeSet<u64> = std::collections::BTreeSet::new();
+    let kind = |m: u32| -> &'static str {
+        if m & IN_CREATE != 0 {
+            "create"
+        } else if m & IN_DELETE != 0 {
+            "delete"
+        } else if m & IN_MOVED_FROM != 0 {
+            "rename-from"
+        } else if m & IN_MOVED_TO != 0 {
+            "rename-to"
+        } else {
+            "other"
+        }
+    };
+    // events before the first copy are already part of it
+    let mut k = first.ev_len;
+    while k < events.len() {
+        let (dir, name, mask) = &events[k];
+        let this = k;
+        k += 1;
+        let Some(rd) = rel_of(dir) else { continue };
+        if name.is_empty() {
+            continue;
+        }
+        let path = rd.join(name);
+        let mut changed = false;
+        let mut unknown = false;
+        if mask & IN_ISDIR != 0 {
+            if mask & (IN_CREATE | IN_MOVED_TO) != 0 {
+                dirs.insert(path);
+            } else if mask & (IN_DELETE | IN_MOVED_FROM) != 0 {
+                dirs.remove(&path);
+                files.retain(|f, _| !f.starts_with(&path));
+            }
+            continue;
+        }
+        // where the content of a file that arrives at event index j (0-based) comes from
+        let content_after = |path: &Path, j: usize| -> Option<VSrc> {
+            for (si, s) in snaps.iter().enumerate() {
+                if s.ev_len > j {
+                    // the name must not have been re-created or replaced between the event and the snapshot
+                    let replaced = events[j + 1..s.ev_len.min(events.len())].iter().any(|(d, n, m)| m & (IN_CREATE | IN_MOVED_TO) != 0 && rel_of(d).map(|r| r.join(n)).as_deref() == Some(path));
+                    if !replaced && s.dir.join(path).is_file() {
+                        return Some(VSrc::Snap(si));
+                    }
+                    if replaced {
+                        return None;
+                    }
+                }
+            }
+            None
+        };
+        if mask & IN_CREATE != 0 {
+            files.insert(path.clone(), VSrc::Empty);
+            changed = true;
+        } else if mask & IN_DELETE != 0 {
+            changed = files.remove(&path).is_some();
+        } else if mask & IN_MOVED_FROM != 0 {
+            files.remove(&path);
+            changed = true;
+            // a rename is one effect: apply its second half before deriving a state
+            if k < events.len() && events[k].2 & IN_MOVED_TO != 0 && cookies.get(k) == cookies.get(this) {
+                let (d2, n2, _) = &events[k];
+                if let Some(r2) = rel_of(d2) {
+                    let p2 = r2.join(n2);
+                    match content_after(&p2, k) {
+                        Some(src) => {
+                            files.insert(p2, src);
+                        },
+                        None => unknown = true,
+                    }
+                }
+                k += 1;
+            }
+        } else if mask & IN_MOVED_TO != 0 {
+            match content_after(&path, this) {
+                Some(src) => {
+                    files.insert(path.clone(), src);
+                },
+                None => unknown = true,
+            }
+            changed = true;
+        }
+        if !changed {
+            continue;
+        }
+        if unknown {
+            // the file was gone again before any copy was taken: its content is not known, no state derived from here on
+            rep.count("probe:effect_log_states_unknown_content", 1);
+            break;
+        }
+        let sig = {
+            let mut w: Vec<u64> = Vec::new();
+            for (f, src) in &files {
+                w.push(crate::prng::label_hash(&f.to_string_lossy()));
+                w.push(match src {
+                    VSrc::Snap(i) => std::fs::metadata(snaps[*i].dir.join(f)).map(|m| m.len()).unwrap_or(0) + 1,
+                    VSrc::Empty => 0,
+                });
+            }
+            mix(&w)
+        };
+        if !seen.insert(sig) || out.len() >= 60 {
+            continue;
+        }
+        let vd = base.join(format!("virt{this}"));
+        for (i, _) in snapper.src.iter().enumerate() {
+            let _ = std::fs::create_dir_all(vd.join(format!("d{i}")));
+        }
+        for d in &dirs {
+            let _ = std::fs::create_dir_all(vd.join(d));
+        }
+        for (f, src) in &files {
+            if let Some(parent) = vd.join(f).parent() {
+                let _ = std::fs::create_dir_all(parent);
+            }
+            match src {
+                VSrc::Snap(i) => {
+                    let _ = std::fs::copy(snaps[*i].dir.join(f), vd.join(f));
+                },
+                VSrc::Empty => {
+                    let _ = std::fs::write(vd.join(f), b"");
+                },
+            }
+        }
+        out.push(Snap { label: format!("fs event #{this} ({} {name}) [state derived from the effect log]", kind(*mask)), dir: vd, ev_len: this + 1 });
+    }
+    rep.count("effect_log_crash_states", out.len() as u64);
+    out
 }
 
 /// Variants of a snapshot in which a leftover temp file is cut to a prefix (states inside a multi-write flush).
@@ -476,7 +679,10 @@ fn run_shard_scenario(p: &Plan, rep: &mut RunReport, root: &Path) {
         rep.count("probe:inotify_available", 1);
     }
     // restarts
-    let snaps = std::mem::take(&mut *snapper.snaps.lock().unwrap());
+    let mut snaps = std::mem::take(&mut *snapper.snaps.lock().unwrap());
+    let n_hook_snaps = snaps.len();
+    let virt = virtual_crash_states(rep, &snapper, &snaps, &root.join("snaps"));
+    snaps.extend(virt);
     let mut labels = Vec::new();
     for (i, s) in snaps.iter().enumerate() {
         labels.push(s.label.clone());
@@ -493,9 +699,9 @@ fn run_shard_scenario(p: &Plan, rep: &mut RunReport, root: &Path) {
     }
     let n_deleted_mid = labels.iter().filter(|l| l.contains("consolidate:deleted")).count();
     rep.count("probe:snapshot_inside_partial_deletion", (n_deleted_mid > 1) as u64);
-    rep.count("crash_points", snaps.len() as u64);
-    rep.nontrivial = snaps.len() > 2;
-    rep.signature = mix(&[p.kind as u64, p.seed, snaps.len() as u64, before.files.len() as u64, before.xorbs.len() as u64]);
+    rep.count("crash_points", n_hook_snaps as u64);
+    rep.nontrivial = n_hook_snaps > 2;
+    rep.signature = mix(&[p.kind as u64, p.seed, n_hook_snaps as u64, before.files.len() as u64, before.xorbs.len() as u64]);
 }
 
 fn list_mdb(dir: &Path) -> Vec<(PathBuf, String, u64)> {
@@ -565,7 +771,10 @@ fn run_local_put(p: &Plan, rep: &mut RunReport, root: &Path) {
         check_event_protocol(rep, &w.events, scenario);
     }
     drop(client);
-    let snaps = std::mem::take(&mut *snapper.snaps.lock().unwrap());
+    let mut snaps = std::mem::take(&mut *snapper.snaps.lock().unwrap());
+    let n_hook_snaps = snaps.len();
+    let virt = virtual_crash_states(rep, &snapper, &snaps, &root.join("snaps"));
+    snaps.extend(virt);
     for (i, s) in snaps.iter().enumerate() {
         let mut dirs = vec![s.dir.clone()];
         dirs.extend(temp_prefix_variants(&s.dir, &root.join("snaps"), i));
@@ -613,9 +822,9 @@ fn run_local_put(p: &Plan, rep: &mut RunReport, root: &Path) {
         }
     }
     crate::engines::session::release_lmdb(&store);
-    rep.count("crash_points", snaps.len() as u64);
-    rep.nontrivial = snaps.len() > 2;
-    rep.signature = mix(&[3, p.seed, snaps.len() as u64, p.prior as u64]);
+    rep.count("crash_points", n_hook_snaps as u64);
+    rep.nontrivial = n_hook_snaps > 2;
+    rep.signature = mix(&[3, p.seed, n_hook_snaps as u64, p.prior as u64]);
 }
 
 // ---- scenario: DiskCache::put --------------------------------------------------------------------
@@ -698,14 +907,26 @@ fn run_cache_put(p: &Plan, rep: &mut RunReport, root: &Path) {
         w.drain();
         check_event_protocol(rep, &w.events, scenario);
     }
+    // a range that was served before the operation and is served after its completion (by the same item or by the
+    // new item that supersedes it) must be served at every stop point in between
+    let served_after: Vec<bool> = before
+        .iter()
+        .map(|(ki, ra, rb)| matches!(cache.get(&vks[*ki].key, &ChunkRange { start: *ra, end: *rb }), Ok(Some(_))))
+        .collect();
     drop(cache);
-    let snaps = std::mem::take(&mut *snapper.snaps.lock().unwrap());
+    let mut snaps = std::mem::take(&mut *snapper.snaps.lock().unwrap());
+    let n_hook_snaps = snaps.len();
+    let virt = virtual_crash_states(rep, &snapper, &snaps, &root.join("snaps"));
+    snaps.extend(virt);
     for (i, s) in snaps.iter().enumerate() {
         let mut dirs = vec![s.dir.clone()];
         dirs.extend(temp_prefix_variants(&s.dir, &root.join("snaps"), i));
         for (vi, d) in dirs.iter().enumerate() {
             let ctx = format!("crash at {} (snapshot {i}, variant {vi})", s.label);
             let cd = d.join("d0");
+            // initialize stops loading once it has seen twice the capacity: beyond that, items may go untracked
+            let dir_bytes: u64 = list_files(&cd).iter().filter(|(_, _, name, _)| parse_item_name(name).is_some()).map(|(_, _, _, size)| *size).sum();
+            let load_capped = dir_bytes >= 2 * capacity;
             for (path, _kd, name, size) in list_files(&cd) {
                 if is_temp_name(&name) {
                     rep.count("probe:snapshot_with_temp_file", 1);
@@ -727,8 +948,11 @@ fn run_cache_put(p: &Plan, rep: &mut RunReport, root: &Path) {
                 Err(_) => rep.violate("C19.c", "cache-put:reopen-panic", format!("{ctx}: initialize panicked: {:?}", take_last_panic())),
                 Ok(Err(e)) => rep.violate("C19.c", "cache-put:reopen-error", format!("{ctx}: initialize failed: {e}")),
                 Ok(Ok(c2)) => {
-                    for (ki, ra, rb) in &before {
+                    for (bi, (ki, ra, rb)) in before.iter().enumerate() {
                         let legit_loss = !after.contains(&(*ki, *ra, *rb));
+                        if legit_loss && served_after[bi] {
+                            rep.count("probe:superseded_range_checked_at_crash_point", 1);
+                        }
                         match c2.get(&vks[*ki].key, &ChunkRange { start: *ra, end: *rb }) {
                             Ok(Some(got)) => {
                                 let (o, dd) = vks[*ki].slice(*ra, *rb);
@@ -737,6 +961,9 @@ fn run_cache_put(p: &Plan, rep: &mut RunReport, root: &Path) {
                                 }
                             },
                             Ok(None) => {
+                                if legit_loss && served_after[bi] && !load_capped {
+                                    rep.violate("C19.b", "cache-put:range-lost", format!("{ctx}: range {ra}..{rb} of key {ki} was served before the interrupted put and is served after its completion (by the item that supersedes it), but is a miss after restart"));
+                                }
                                 if !legit_loss {
                                     rep.violate("C19.b", "cache-put:item-lost", format!("{ctx}: item {ra}..{rb} of key {ki} was readable before the interrupted put and survives its completion, but is gone after restart"));
                                 }
@@ -749,9 +976,9 @@ fn run_cache_put(p: &Plan, rep: &mut RunReport, root: &Path) {
             }
         }
     }
-    rep.count("crash_points", snaps.len() as u64);
-    rep.nontrivial = snaps.len() > 2;
-    rep.signature = mix(&[4, p.seed, snaps.len() as u64, before.len() as u64]);
+    rep.count("crash_points", n_hook_snaps as u64);
+    rep.nontrivial = n_hook_snaps > 2;
+    rep.signature = mix(&[4, p.seed, n_hook_snaps as u64, before.len() as u64]);
 }
 
 fn gen(seed: u64, run: u64, _tier: Tier) -> Plan {
@@ -772,6 +999,11 @@ fn gen(seed: u64, run: u64, _tier: Tier) -> Plan {
         };
         if i > 0 && rng.chance(1, 3) {
             s.overlap_first = Some((rng.next_u64(), 8));
+            if rng.chance(1, 2) {
+                // nothing of its own: merging it with the first model reproduces a shard that already exists
+                s.n_files = 0;
+                s.n_xorbs = 0;
+            }
         }
         specs.push(s);
     }
@@ -849,10 +1081,10 @@ impl Engine for CrashEngine {
         out.into_iter().map(|q| serde_json::to_value(q).unwrap()).collect()
     }
     fn rule(&self, _focus: &str) -> String {
-        "Each run: one scenario (shard flush / consolidation / keyed export / LocalClient::put / DiskCache::put) after a seeded prior history of 0-5 steps; the operation under test runs once while every named crash point (H4/H7) triggers a copy of the directories; every snapshot, and variants with leftover temp files cut to a prefix, is re-opened by a fresh manager / LocalClient / DiskCache and checked (final names complete and consistent, earlier records still retrievable, re-open succeeds, temp files ignored); the inotify event sequence of the directories is checked against 'final names appear only by rename and are never written afterwards'. Enumeration over crash points is complete per history. Non-trivial: more than two crash points were hit (states strictly inside the operation exist). Distinct: (scenario, seed, crash points, records before).".into()
+        "Each run: one scenario (shard flush / consolidation / keyed export / LocalClient::put / DiskCache::put) after a seeded prior history of 0-5 steps; the operation under test runs once while every named crash point (H4/H7) triggers a copy of the directories; every snapshot, and variants with leftover temp files cut to a prefix, is re-opened by a fresh manager / LocalClient / DiskCache and checked (final names complete and consistent, earlier records still retrievable, re-open succeeds, temp files ignored); the inotify event sequence of the directories is checked against 'final names appear only by rename and are never written afterwards', and one more crash state is derived per namespace-changing event of that sequence (create / delete / rename applied to the copy taken at the start of the operation), so that states between effects which no named point separates are re-opened and checked as well. A range served by the chunk cache before a put and after its completion must be served at every stop point in between. Enumeration over crash points is complete per history. Non-trivial: more than two crash points were hit (states strictly inside the operation exist). Distinct: (scenario, seed, crash points, records before).".into()
     }
     fn real_vs_stub(&self) -> Value {
-        json!({"real": ["file_utils::SafeFileCreator", "mdb_shard flush / write_out_from_reader / consolidate_shards_in_directory / keyed export / ShardFileManager re-open", "cas_client::LocalClient::{new, put, get, exists}", "chunk_cache::DiskCache::{put, initialize, get}", "the file system (tmpfs), inotify"], "simulated": ["process stop: directory copy at a named point between two file-system effects", "partially written temp files (prefix variants)"]})
+        json!({"real": ["file_utils::SafeFileCreator", "mdb_shard flush / write_out_from_reader / consolidate_shards_in_directory / keyed export / ShardFileManager re-open", "cas_client::LocalClient::{new, put, get, exists}", "chunk_cache::DiskCache::{put, initialize, get}", "the file system (tmpfs), inotify"], "simulated": ["process stop: directory copy at a named point between two file-system effects", "process stop after each create/delete/rename the kernel reported (state derived from the effect log)", "partially written temp files (prefix variants)"]})
     }
     fn assumptions(&self, _focus: &str) -> Vec<String> {
         vec![
